@@ -262,7 +262,7 @@ fn run_c04(input: RunInput) -> ScenFuture {
         let remotes = [endpoint(&w, 2), endpoint(&w, 3)];
         let n_peers = w.param("peers", 1, 2) as usize;
         let n_conns = w.param("connections", 2, 5) as usize;
-        let n_ops = w.param("ops", 3, 12) as usize;
+        let n_ops = w.param("ops", 3, if w.tier == Tier::Quick { 12 } else { 40 }) as usize;
         // simulated preemption: at every scheduling point (just before the active-peer lock is
         // taken, hook H7) a pending operation of "another thread" may run
         let preempt = w.flag("preemption", 0.5);
